@@ -9,3 +9,27 @@ pub fn regex_is_match_stub(_r: &regex::Regex, _s: &str) -> bool {
 pub fn fmt_format_stub(_args: std::fmt::Arguments<'_>) -> String {
     String::new()
 }
+
+// ---- clock: `crate::time::Instant::now()` is routed here (see routes.json). Arbitrary
+// non-decreasing instants: a base instant (all-zero Timespec) plus a running offset that grows
+// by a solver-chosen Duration on every reading. std's own Instant/Duration arithmetic runs.
+static mut CLOCK_OFFSET: Option<std::time::Duration> = None;
+pub fn clock_reset() {
+    unsafe { CLOCK_OFFSET = Some(std::time::Duration::new(0, 0)) }
+}
+pub fn clock_on() -> bool {
+    unsafe { CLOCK_OFFSET.is_some() }
+}
+pub fn clock_now() -> std::time::Instant {
+    let base: std::time::Instant = unsafe { std::mem::transmute([0u8; std::mem::size_of::<std::time::Instant>()]) };
+    let step_s: u64 = kani::any();
+    let step_n: u32 = kani::any();
+    kani::assume(step_s < (1 << 40) && step_n < 1_000_000_000);
+    unsafe {
+        let cur = CLOCK_OFFSET.unwrap();
+        let next = cur + std::time::Duration::new(step_s, step_n);
+        kani::assume(next.as_secs() < (1 << 50));
+        CLOCK_OFFSET = Some(next);
+        base + next
+    }
+}
